@@ -204,6 +204,18 @@ def build(env, spec):
             W.preloaded[id(wk)].add(mname)
             for rn, q in m["load_res"].items():
                 W.profile_held[id(wk)][rn] = W.profile_held[id(wk)].get(rn, 0) + q
+    # models that are still being loaded when the run starts: usable on that worker from time L on
+    W.loading_until = {}
+    for key, ms in spec.get("loading", {}).items():
+        pi, wi = map(int, key.split(":"))
+        wk = [w_ for (p_, w_, _) in W.workers if p_ == pi][wi]
+        for mname, L in ms.items():
+            m = W.models[mname]
+            slow_load = ExecutionStrategy(resources=m["load"].resources, batch_size=1, runtime=ET(L))
+            wk.load_profile(m["profile"], slow_load)
+            W.loading_until[(id(wk), mname)] = L
+            for rn, q in m["load_res"].items():
+                W.profile_held[id(wk)][rn] = W.profile_held[id(wk)].get(rn, 0) + q
     # policy
     pol = spec.get("policy", "EDF")
     srt = val(env, spec.get("sched_runtime", 0), "sched_rt", 0, T)
@@ -482,7 +494,10 @@ class Monitor:
             self.req("C15", "worker-exists", len(wk) == 1, str(names))
             if len(wk) == 1:
                 wid = id(wk[0])
-                self.req("C15", "model-loaded-on-worker", mname in W.preloaded[wid], f"{names}: model {mname} on {wk[0].name}")
+                if (wid, mname) in W.loading_until:
+                    self.req("C15", "model-loaded-on-worker", sim_time.time >= W.loading_until[(wid, mname)], f"{names}: model {mname} still loading on {wk[0].name} until {W.loading_until[(wid, mname)]}")
+                else:
+                    self.req("C15", "model-loaded-on-worker", mname in W.preloaded[wid], f"{names}: model {mname} on {wk[0].name}")
                 pi, _, caps = self.live[wid]
                 for r, q in st.resources.resources:
                     already = extra.setdefault(wid, {}).get(r.name, 0)
